@@ -142,7 +142,7 @@ CHECKS["C14"] = dict(
 CHECKS["C06"] = dict(
     level="proof",
     text="PARTIAL proof. Proved (decide over chains REGENERATED from the AST of set_value_and_type, Meta.set_user_defined_metadata and the Cell.value setter at every run): "
-    "every Python type enters the branch that writes its own ODF value type, datetime before date and bool before int; the codecs the branches call are exact "
+    "every Python type enters the branch that writes its own ODF value type, datetime before date and bool before int; an int of any size and sign is written and read back without loss (int_lexical); the codecs the branches call are exact "
     "inverses for every value (C18 theorems: every duration to the microsecond, every valid datetime with offset, booleans). Oracle + correspondence: a value "
     "lattice per type (None, bool, int to 10^30, float, Decimal, str incl. 'true'/'1.5'/dates-looking, date, datetime with microseconds and offsets, timedelta "
     "of either sign with microseconds) x 9 carriers (Cell ctor / value= / set_value, Table.set_value, Row.set_value, VarSet, UserFieldDecl, UserDefined, "
